@@ -227,7 +227,8 @@ def check_step(ck, rng, spec, cfg, case_key):
             ret = opt.step(step_input, target=target, weight=weights if (cfg["weight"] and cfg["weight_at"] in ("step", "both")) else None)
     except Exception as e:  # noqa
         big = [float(e_["x"].abs().max()) for e_ in trace.of("SOLVE") if "x" in e_]
-        if big and not (max(big) < 1e3):
+        blown = any(not torch.isfinite(v_).all() for v_ in optspy.param_snapshot(model).values())
+        if (big and not (max(big) < 1e3)) or (blown and big and not (max(big) < 50)):
             # an indefinite / nearly singular clamped system produced an astronomically large (or non-finite) step and the
             # model left the domain of its own operations: nothing of the property is decidable past that point
             ck.note_add("diverged_after_huge_step", 1)
